@@ -89,16 +89,33 @@ def _r1(ctx, f):
         ctx.check(ok, "R1", "one worker per slice: Process(target=_extend_path, args=(shared, slice, graph, offset))", f.where(p),
                   "workers are not created one per slice with (shared list, that slice, graph, offset)", f.qname, "worker per slice")
         return
+    fused = None
     if b is None:
-        ctx.node_bad("R1", f, sl[0], "the worker slices are not kernel[s:e] for (s, e) in zip(starts, ends) over the same "
-                     "kernel list the sequential branch iterates")
+        # the same family written in one comprehension: kernel[lo(t):hi(t)] for t in range(c)
+        fused = pm.match("[%s[M_lo:M_hi] for M_t in range(M_c)]" % kern, sl[0].value)
+    if b is None and fused is None:
+        other = pm.match("[M_k[M_lo:M_hi] for M_t in M_it]", sl[0].value) or pm.match("[M_k[M_s:M_e] for M_s, M_e in zip(M_starts, M_ends)]", sl[0].value)
+        if other is not None and U(other["M_k"]) != kern and U(flow.subst(other["M_k"])) != kern:
+            ctx.node_bad("R1", f, sl[0], "the worker slices are not kernel[s:e] for (s, e) in zip(starts, ends) over the same "
+                         "kernel list the sequential branch iterates")
+        else:
+            ctx.unknown("R1", U(sl[0]), f.where(sl[0]), "the worker slices are not written as kernel[lo:hi] for t in range(c) or over zip(starts, ends)")
         return
-    ctx.node_ok("R1", f, sl[0], "slices = kernel[s:e] over zip(starts, ends)")
-    starts, ends = U(b["M_starts"]), U(b["M_ends"])
-    sd = C.assigns_to(f.node, starts)
-    ed = C.assigns_to(f.node, ends)
-    if len(sd) != 1 or len(ed) != 1:
-        ctx.broken("R1: starts/ends definitions not found")
+    if fused is not None:
+        def syn(elt):
+            a = ast.parse("_ = [%s for %s in range(%s)]" % (U(elt), U(fused["M_t"]), U(fused["M_c"]))).body[0]
+            for x in ast.walk(a):
+                ast.copy_location(x, sl[0])
+            return a
+        ctx.node_ok("R1", f, sl[0], "slices = kernel[lo(t):hi(t)] for t in range(c)")
+        sd, ed = [syn(fused["M_lo"])], [syn(fused["M_hi"])]
+    else:
+        ctx.node_ok("R1", f, sl[0], "slices = kernel[s:e] over zip(starts, ends)")
+        starts, ends = U(b["M_starts"]), U(b["M_ends"])
+        sd = C.assigns_to(f.node, starts)
+        ed = C.assigns_to(f.node, ends)
+        if len(sd) != 1 or len(ed) != 1:
+            ctx.broken("R1: starts/ends definitions not found")
     bs = pm.match("[M_t * M_w for M_t in range(M_c)]", sd[0].value) or pm.match("[M_w * M_t for M_t in range(M_c)]", sd[0].value)
     be = None
     for pat in ("[min((M_t + 1) * M_w, M_n) for M_t in range(M_c)]", "[min(M_n, (M_t + 1) * M_w) for M_t in range(M_c)]",
